@@ -11,6 +11,10 @@ package main
 // generator chose (c06World.win), the time set and the option level.
 
 import (
+	"google.golang.org/protobuf/proto"
+	"github.com/google/go-tdx-guest/verify"
+	pb "github.com/google/go-tdx-guest/proto/tdx"
+	ccpb "github.com/google/go-tdx-guest/proto/checkconfig"
 	"fmt"
 	"math/big"
 	"math/rand/v2"
@@ -380,5 +384,71 @@ func c06(r *hx.Run) {
 			c06Run(r, cw, nil, true, true, nil, tag, "probe:now-nil(wall-clock)-not-yet-valid")
 		}
 	}
+	c06DefaultTime(r)
 	r.Note("grid", fmt.Sprintf("%d artifacts (+ second-intermediate-in-pool) x %d repetitions; %d random worlds x %d assignments; Now=nil around the wall clock", len(c06Arts), reps, randWorlds, perWorld))
+}
+
+
+// c06DefaultTime: "when no time is given everything is judged at the time of the call" — of THIS call: an options value that
+// carries no time must still carry none after a call, however the call ended (early structural / chain failure, failed
+// download, failed signature, success), and options produced from a root-of-trust configuration carry no time either (a time
+// fixed at conversion would judge every later verification at that moment).  Harness-only.
+func c06DefaultTime(r *hx.Run) {
+	now := time.Now()
+	kinds := []struct {
+		name string
+		mut  func(s *world.Spec)
+	}{
+		{"accepted", func(s *world.Spec) {}},
+		{"chain-one-block", func(s *world.Spec) { s.Chain = s.Chain[:1] }},
+		{"leaf-not-a-pck-certificate", func(s *world.Spec) { s.Cert("leaf").CN = "Somebody Else" }},
+		{"tcbinfo-download-fails", func(s *world.Spec) { s.TcbResp.Fetch = "fail" }},
+		{"qeidentity-download-fails", func(s *world.Spec) { s.QeResp.Fetch = "fail" }},
+		{"pckcrl-download-fails", func(s *world.Spec) { s.PckCrl.Fetch = "fail" }},
+		{"quote-signature-by-foreign-key", func(s *world.Spec) { s.Quote.SignKey = 7 }},
+		{"tcb-level-out-of-date", func(s *world.Spec) {
+			for i := range s.Tcb.Levels {
+				s.Tcb.Levels[i].Status = "OutOfDate"
+			}
+		}},
+		{"structurally-invalid-message", func(s *world.Spec) { s.MsgMut = append(s.MsgMut, func(q *pb.QuoteV4) { q.TdQuoteBody.MrTd = q.TdQuoteBody.MrTd[:47] }) }},
+	}
+	idx := 0
+	for _, k := range kinds {
+		for _, lv := range [][2]bool{{false, false}, {true, false}, {true, true}} {
+			rng := c05CaseRng(r, 0x46, idx)
+			idx++
+			s := c12Wall(rng, now)
+			k.mut(s)
+			s.GC, s.CR, s.Now = lv[0], lv[1], nil
+			w := world.Build(s)
+			o := &verify.Options{GetCollateral: lv[0], CheckRevocations: lv[1], Getter: w.Getter, TrustedRoots: w.Pool()}
+			var err error
+			res, _ := hx.Guard(func() string { err = verify.TdxQuote(proto.Clone(w.Quote).(*pb.QuoteV4), o); return "" })
+			obs, fail := "now-still-nil", ""
+			verdict := "ok"
+			if err != nil {
+				verdict = "err"
+			}
+			if res == "panic" {
+				obs, fail = "panic", "crash in verify.TdxQuote"
+			} else if o.Now != nil {
+				obs = "now-set"
+				fail = fmt.Sprintf("the options carried no time before the call (%s, verdict %s) and carry %s afterwards: later calls through this options value are judged at the time of THIS call, not at theirs", k.name, verdict, o.Now.PckCertChain.UTC().Format(time.RFC3339))
+			}
+			r.Emit(fmt.Sprintf("# C06.default-time kind=%s gc=%d cr=%d", k.name, hx.B(lv[0]), hx.B(lv[1])), obs+" "+verdict, fail, fmt.Sprintf("default-time|%s|%v", k.name, lv), true, "probe:default-time-not-persisted", "kind:"+k.name)
+		}
+	}
+	for i, rot := range []*ccpb.RootOfTrust{{}, {GetCollateral: true}, {CheckCrl: true, GetCollateral: true}} {
+		var o *verify.Options
+		var err error
+		res, _ := hx.Guard(func() string { o, err = verify.RootOfTrustToOptions(rot); return "" })
+		obs, fail := "no-time", ""
+		if res == "panic" || err != nil || o == nil {
+			obs, fail = "err", fmt.Sprintf("RootOfTrustToOptions failed on a configuration without bundles: %v", err)
+		} else if o.Now != nil {
+			obs, fail = "time-fixed", "options converted from a root-of-trust configuration carry a time set fixed at conversion ("+o.Now.PckCertChain.UTC().Format(time.RFC3339)+"): every later verification is judged at that moment instead of at the time of the call"
+		}
+		r.Emit(fmt.Sprintf("# C06.rot-time cfg=%d", i), obs, fail, fmt.Sprintf("rot-time|%d", i), true, "probe:root-of-trust-options-carry-no-time")
+	}
 }
